@@ -5,10 +5,12 @@ import random
 from . import core, dp
 
 PID = "C08"
+mods = []
 
 
 def gen(rng, tier):
     lines, cases = [], []
+    mods.clear()
     n = 60 if tier == "quick" else 4000
     for i in range(n):
         # three datasets sharing some columns; the third may lack a group-by column
@@ -42,6 +44,18 @@ def gen(rng, tier):
             for j, d in enumerate(seq):
                 lines.append(dp.Query("%s.f%d" % (qid, j), d, w, m, e, gb, 0).line())
             cases.append((qid, seq, w, m, e, gb))
+        # the caller changes the Query between executions: tree rewritten in place, group-by list
+        # replaced, cleared (also on a value copy), restored
+        for qn in range(2):
+            e1 = dp.rand_expr(rng, leaves, rng.randrange(0, 4))
+            e2 = dp.rand_expr(rng, leaves, rng.randrange(0, 4)) if rng.random() < 0.6 else e1
+            gb1 = [rng.choice(cols) for _ in range(rng.choice([1, 1, 2, 3]))]
+            gb2 = [] if rng.random() < 0.4 else [rng.choice(cols) for _ in range(rng.choice([1, 2]))]
+            w, m = rng.choice(dp.WRITERS), rng.choice(dp.MODES)
+            mid = "%s.m%d" % (base, qn)
+            enc = lambda gb: "GB %d%s" % (len(gb), "".join(" " + core.enc_str(c) for c in gb))
+            lines.append("QMOD %s %s %s %s %s %s THEN %s %s" % (mid, dss[0].did, w, m, dp.enc_expr(e1), enc(gb1), dp.enc_expr(e2), enc(gb2)))
+            mods.append(mid)
         for d in dss:
             lines.append("DROP " + d.did)
     return lines, cases
@@ -78,7 +92,22 @@ def run(rep, scratch, tier, seed, replay=None):
         f = impl.get(("QVF", qid))
         if f != "SAME":
             bad.append((qid, -1, f, None, "SAME"))
-    if bad:
+    for mid in ([] if replay else mods):
+        for j in range(4):
+            a, b = impl.get(("QM", "%s.%d" % (mid, j))), model.get(("QM", "%s.%d" % (mid, j)))
+            nexec += 1
+            if a != b:
+                what = ["first execution", "after the caller rewrote the tree in place and replaced the group-by list", "value copy of the Query with the group-by list cleared", "group-by list restored"][j]
+                blk = [l for l in lines if l.startswith("DATASET %s_0 " % mid.split(".")[0]) or (l.startswith("QMOD") and l.split()[1] == mid)]
+                i0 = next(i for i, l in enumerate(lines) if l.startswith("DATASET %s_0 " % mid.split(".")[0]))
+                blk = lines[i0:i0 + 1 + int(lines[i0].split()[2])] + [l for l in lines if l.startswith("QMOD") and l.split()[1] == mid]
+                rep.violation("correspondence", "a Query value modified by its caller between executions (%s): %s -> implementation %s, a fresh query (model) %s" % (mid, what, (a or "NONE")[:200], (b or "NONE")[:200]),
+                              {"lines": blk, "cases": [[mid]], "impl": a, "model": b})
+                bad.append((mid, j, a, None, b))
+                break
+        if bad and bad[-1][0] == mid:
+            break
+    if bad and not bad[0][0].split(".")[1].startswith("m"):
         qid, j, a, fi, b = bad[0]
         keep = [l for l in lines if l.startswith("DATASET %s_" % qid.split(".")[0]) or l.startswith("R ") or (" %s" % qid) in l]
         # keep the whole block of this case (datasets + its QVAL/QUERY lines)
